@@ -539,8 +539,12 @@ class Machine(object):
         return {"RSA": RSA, "DSA": DSA, "ECC": ECC}[fam]
 
     def setup(self, tier):
-        from Crypto.PublicKey import RSA, DSA, ECC
         self.tier = tier
+        self.build_keyfiles()
+        self.build_index(tier)
+
+    def build_keyfiles(self):
+        from Crypto.PublicKey import RSA, DSA, ECC
         entropy.reset_stream("c13-keys")
         self.keys = {"RSA": [RSA.generate(1024), RSA.generate(1024, e=3)],
                      "DSA": [DSA.generate(1024)],
@@ -603,6 +607,8 @@ class Machine(object):
                 add("ECC", ki, pub.export_key(format="OpenSSH"), True, True)
             # (raw Ed/X public keys are not an import_key format: they have their own import functions)
         entropy.reset_stream(0)
+
+    def build_index(self, tier):
         # enumerated index: (target, item index, chunk)
         self.index = []
         self.item_cache = {}
